@@ -88,4 +88,58 @@ PROPS = {
         "assumptions": ["stored alignment != 1 cannot be produced through the API (modelled and proved, not exercised)", "error payloads are not compared, only the variant", "durable commits only; savepoints and storage-error poisoning out of scope"],
         "explanation": "Lean: decision logic of open/rename/delete/list for all catalogs, names and requests; invariant (names unique and sorted, live handles name staged tables) by induction over arbitrary operation sequences; transaction atomicity. Correspondence: every answer incl. type names/widths, listings and committed contents equals the model. Oracle: BTreeMap catalog + allocated_pages() returning to its earlier level after delete+commit+drain (tolerance 2 pages)",
     },
+    "C06": {
+        "props_module": "RedbModel.Props.C06",
+        "streams": [("history", ["--focus", "c06"], "history")],
+        "rule": 'a case is one random history of whole-database steps (write transactions of every durability / two-phase / quick-repair mix with table, multimap, delete-table and savepoint create/restore/delete operations, ending in commit, abort or drop; begin_read / drop reader; drop savepoint; clean reopen; crash-reopen; compact; check_integrity; list savepoints), page 512..4096, region 64 KiB..default, cache 0..1 GiB; after every step: committed contents vs recorded commit point, every live reader re-read vs its start contents, page accounting from the snapshot hooks, fingerprints of every pinned tree, `hist state` line for the Lean monitor; histories end with a quiescence check; distinct by hash of lines, non-trivial if completed' + " (generator weighted for C06)",
+        "trusted_base": BASE_TRUST + ["modelled, not verified: the page life-cycle of transactions.rs / transaction_tracker.rs / page_manager.rs as the ownership monitor Model/Lifecycle.lean (ownOk, pinOk, moveOk, stepOk, abortOk); owner sets are computed with redb's own tree traversal through the read-only hook (the Lean format decoder checks the same images independently in C10)"],
+        "assumptions": ["single-threaded histories (interleavings are C03/C16)", "preemption inside lock-protected blocks and weak-memory effects are not modelled"],
+        "explanation": 'Lean: the proven monitor (exactly-one-owner reading of ownOk, pinned pages stay allocated and are never re-owned over any accepted trace, released pages are unpinned); every observed state/transition of the real database is fed to the monitor; oracle: exact page accounting, pins inside the allocated set, pinned page bytes unchanged, return to level at quiescence, region tracker never hides free space',
+        "timeout": 7000,
+    },
+    "C02": {
+        "props_module": "RedbModel.Props.C02",
+        "streams": [("history", ["--focus", "c02"], "history")],
+        "rule": 'a case is one random history of whole-database steps (write transactions of every durability / two-phase / quick-repair mix with table, multimap, delete-table and savepoint create/restore/delete operations, ending in commit, abort or drop; begin_read / drop reader; drop savepoint; clean reopen; crash-reopen; compact; check_integrity; list savepoints), page 512..4096, region 64 KiB..default, cache 0..1 GiB; after every step: committed contents vs recorded commit point, every live reader re-read vs its start contents, page accounting from the snapshot hooks, fingerprints of every pinned tree, `hist state` line for the Lean monitor; histories end with a quiescence check; distinct by hash of lines, non-trivial if completed' + " (generator weighted for C02)",
+        "trusted_base": BASE_TRUST + ["modelled, not verified: the page life-cycle of transactions.rs / transaction_tracker.rs / page_manager.rs as the ownership monitor Model/Lifecycle.lean (ownOk, pinOk, moveOk, stepOk, abortOk); owner sets are computed with redb's own tree traversal through the read-only hook (the Lean format decoder checks the same images independently in C10)"],
+        "assumptions": ["single-threaded histories (interleavings are C03/C16)", "preemption inside lock-protected blocks and weak-memory effects are not modelled"],
+        "explanation": 'Lean: pinned snapshot pages never change owner except into later pending-free records, over whole traces; harness: every live read transaction is re-read completely after every later step of any kind and compared with the contents at its begin_read; byte fingerprint of its tree unchanged',
+        "timeout": 7000,
+    },
+    "C05": {
+        "props_module": "RedbModel.Props.C05",
+        "streams": [("history", ["--focus", "c05"], "history")],
+        "rule": 'a case is one random history of whole-database steps (write transactions of every durability / two-phase / quick-repair mix with table, multimap, delete-table and savepoint create/restore/delete operations, ending in commit, abort or drop; begin_read / drop reader; drop savepoint; clean reopen; crash-reopen; compact; check_integrity; list savepoints), page 512..4096, region 64 KiB..default, cache 0..1 GiB; after every step: committed contents vs recorded commit point, every live reader re-read vs its start contents, page accounting from the snapshot hooks, fingerprints of every pinned tree, `hist state` line for the Lean monitor; histories end with a quiescence check; distinct by hash of lines, non-trivial if completed' + " (generator weighted for C05)",
+        "trusted_base": BASE_TRUST + ["modelled, not verified: the page life-cycle of transactions.rs / transaction_tracker.rs / page_manager.rs as the ownership monitor Model/Lifecycle.lean (ownOk, pinOk, moveOk, stepOk, abortOk); owner sets are computed with redb's own tree traversal through the read-only hook (the Lean format decoder checks the same images independently in C10)"],
+        "assumptions": ["single-threaded histories (interleavings are C03/C16)", "preemption inside lock-protected blocks and weak-memory effects are not modelled"],
+        "explanation": 'Lean: an abandoned transaction (abortOk) leaves allocation, owners, records and ids unchanged and keeps pins valid; harness: abort / drop / poisoned commit (panicking predicate) after arbitrary bodies incl. savepoint operations; next contents, savepoint list and page accounting equal the state before',
+        "timeout": 7000,
+    },
+    "C07": {
+        "props_module": "RedbModel.Props.C07",
+        "streams": [("history", ["--focus", "c07"], "history"), ("crash", [], "crash", ("thorough",))],
+        "rule": 'a case is one random history of whole-database steps (write transactions of every durability / two-phase / quick-repair mix with table, multimap, delete-table and savepoint create/restore/delete operations, ending in commit, abort or drop; begin_read / drop reader; drop savepoint; clean reopen; crash-reopen; compact; check_integrity; list savepoints), page 512..4096, region 64 KiB..default, cache 0..1 GiB; after every step: committed contents vs recorded commit point, every live reader re-read vs its start contents, page accounting from the snapshot hooks, fingerprints of every pinned tree, `hist state` line for the Lean monitor; histories end with a quiescence check; distinct by hash of lines, non-trivial if completed' + " (generator weighted for C07)",
+        "trusted_base": BASE_TRUST + ["modelled, not verified: the page life-cycle of transactions.rs / transaction_tracker.rs / page_manager.rs as the ownership monitor Model/Lifecycle.lean (ownOk, pinOk, moveOk, stepOk, abortOk); owner sets are computed with redb's own tree traversal through the read-only hook (the Lean format decoder checks the same images independently in C10)"],
+        "assumptions": ["single-threaded histories (interleavings are C03/C16)", "preemption inside lock-protected blocks and weak-memory effects are not modelled"],
+        "explanation": 'Lean: savepoint-pinned pages are kept over whole traces and can re-enter the data tree only through a restore of a savepoint that still pins them; harness: contents after restore+commit equal the contents recorded at creation, later savepoints invalid, persistent savepoints listed across reopen and crash, no leak at quiescence',
+        "timeout": 7000,
+    },
+    "C11": {
+        "props_module": "RedbModel.Props.C11",
+        "streams": [("history", ["--focus", "c11"], "history"), ("crash", [], "crash", ("thorough",))],
+        "rule": 'a case is one random history of whole-database steps (write transactions of every durability / two-phase / quick-repair mix with table, multimap, delete-table and savepoint create/restore/delete operations, ending in commit, abort or drop; begin_read / drop reader; drop savepoint; clean reopen; crash-reopen; compact; check_integrity; list savepoints), page 512..4096, region 64 KiB..default, cache 0..1 GiB; after every step: committed contents vs recorded commit point, every live reader re-read vs its start contents, page accounting from the snapshot hooks, fingerprints of every pinned tree, `hist state` line for the Lean monitor; histories end with a quiescence check; distinct by hash of lines, non-trivial if completed' + " (generator weighted for C11)",
+        "trusted_base": BASE_TRUST + ["modelled, not verified: the page life-cycle of transactions.rs / transaction_tracker.rs / page_manager.rs as the ownership monitor Model/Lifecycle.lean (ownOk, pinOk, moveOk, stepOk, abortOk); owner sets are computed with redb's own tree traversal through the read-only hook (the Lean format decoder checks the same images independently in C10)"],
+        "assumptions": ["single-threaded histories (interleavings are C03/C16)", "preemption inside lock-protected blocks and weak-memory effects are not modelled"],
+        "explanation": 'Lean: after any open the accepted state satisfies the exactly-one-owner accounting and all pins/durable pages are allocated; crash transitions only need the durable id to be monotone; harness: clean reopen, crash-reopen (repair paths), check_integrity Ok(true) and contents unchanged, further transactions after reopen under the same monitor',
+        "timeout": 7000,
+    },
+    "C13": {
+        "props_module": "RedbModel.Props.C13",
+        "streams": [("history", ["--focus", "c13"], "history"), ("crash", [], "crash", ("thorough",))],
+        "rule": 'a case is one random history of whole-database steps (write transactions of every durability / two-phase / quick-repair mix with table, multimap, delete-table and savepoint create/restore/delete operations, ending in commit, abort or drop; begin_read / drop reader; drop savepoint; clean reopen; crash-reopen; compact; check_integrity; list savepoints), page 512..4096, region 64 KiB..default, cache 0..1 GiB; after every step: committed contents vs recorded commit point, every live reader re-read vs its start contents, page accounting from the snapshot hooks, fingerprints of every pinned tree, `hist state` line for the Lean monitor; histories end with a quiescence check; distinct by hash of lines, non-trivial if completed' + " (generator weighted for C13)",
+        "trusted_base": BASE_TRUST + ["modelled, not verified: the page life-cycle of transactions.rs / transaction_tracker.rs / page_manager.rs as the ownership monitor Model/Lifecycle.lean (ownOk, pinOk, moveOk, stepOk, abortOk); owner sets are computed with redb's own tree traversal through the read-only hook (the Lean format decoder checks the same images independently in C10)"],
+        "assumptions": ["single-threaded histories (interleavings are C03/C16)", "preemption inside lock-protected blocks and weak-memory effects are not modelled"],
+        "explanation": 'Lean: accounting and pin safety across the compaction commits; harness: compact() refused iff readers/savepoints exist, contents unchanged, file not larger, accounting exact afterwards',
+        "timeout": 7000,
+    },
 }
